@@ -5,16 +5,25 @@ from vlib.tables import run_extractor
 
 MANIFEST = {
     "text": "Lean theorems about M, a transcription of libcoap's global lock (coap_lock_lock_func / coap_lock_unlock_func in both variants, "
-            "the four callback macros): for any number of threads running any well-nested programs under any interleaving — "
+            "the four callback macros, the release window coap_lock_unlock; blocking wait; coap_lock_lock inside library code): "
+            "for any number of threads running any well-nested programs under any interleaving — "
             "mutual_exclusion / critical_sections_exclusive (library code and lock-keeping callbacks of different threads never overlap; "
             "re-entry only by the holder from inside a callback), balanced (a returned top-level API call leaves the mutex free, "
             "in_callback = lock_count = 0), reentrancy_ok / no_self_deadlock (a callback may call the API), no_deadlock / progress / "
             "not_blocked_once_others_return, no_assert_fails. T1 facts regenerated from the tree on every run and proved by decide: "
             "advertised_implies_compiled (config probes of the CMake build and of the emulated autotools configuration), "
             "api_sites_bracketed (all 71 COAP_API wrappers lock / call the worker / unlock on every path), callback_sites_wrapped_partial "
-            "(request, response, NACK, event, ping, pong handlers are invoked through the macros). M is tied to the compiled code by "
+            "(request, response, NACK, event, ping, pong handlers are invoked through the macros), internal_windows_balanced (a "
+            "path-sensitive lock-depth analysis of every function definition of the compiled sources: each function that releases or "
+            "takes the lock itself — the window around epoll_wait in coap_io_process_with_fds_lkd, the callback-release sites, "
+            "coap_new_context, the wrappers — reaches every return / loop back-edge at its entry depth, every re-lock failure action "
+            "leaves the function, nothing inside a release window touches the context); window_mutex_free / "
+            "api_call_enters_during_window (a thread waiting inside coap_io_process does not hold the mutex; another thread's API "
+            "call gets in). M is tied to the compiled code by "
             "differential runs of the real macros and lock functions: single-thread token sequences and 2..8 real threads under "
-            "turn-based schedules, both lock variants. partial: race freedom of the compiled C outside the lock protocol is only observed "
+            "turn-based schedules, both lock variants; the real coap_io_process() is interrupted by a signal while another thread "
+            "holds the lock in an event callback (must re-lock before returning); a failing coap_new_context() must leave the lock "
+            "free. partial: race freedom of the compiled C outside the lock protocol is only observed "
             "by a ThreadSanitizer smoke run (support, not proof); two open findings (auxiliary callbacks invoked without the macro; "
             "unsynchronised pre-check read of global_lock) are reported as KNOWN-FINDING.",
     "note": "Trusted: Lean kernel (+ propext, Classical.choice, Quot.sound), pthread mutex semantics, the T1 probe and static scan "
@@ -27,20 +36,27 @@ MANIFEST = {
 LEAN_MODULES = ["CoapVerif.Props.C13"]
 NAMESPACE = "Coap.C13"
 REQUIRED_THEOREMS = ["advertised_implies_compiled", "advertised_implies_compiled_all", "api_sites_bracketed",
-                     "callback_sites_wrapped_partial", "mutual_exclusion", "critical_sections_exclusive", "balanced",
+                     "callback_sites_wrapped_partial", "internal_windows_balanced", "internal_windows_seen",
+                     "window_mutex_free", "api_call_enters_during_window", "mutual_exclusion", "critical_sections_exclusive", "balanced",
                      "balanced_quiescent", "reentrancy_ok", "no_self_deadlock", "no_deadlock",
                      "not_blocked_once_others_return", "progress", "no_assert_fails", "reentry_only_by_owner_in_callback"]
 RULE = ("(1) the build-configuration probes of the tree (CMake default; autotools defaults emulated with its AC_DEFINE values), "
-        "(2) one line per COAP_API wrapper and per application-callback invocation site found by the static scan, "
-        "(3) random well-nested token sequences (API entry/exit, the four callback macros, nesting depth up to 40) run on one "
+        "(2) one line per COAP_API wrapper, per application-callback invocation site and per function that releases / takes the "
+        "lock itself (lock balance along every path of its statement tree) found by the static scan, "
+        "(3) random well-nested token sequences (API entry/exit, the four callback macros, release windows, nesting depth up to 40) run on one "
         "thread through the real macros and lock functions of both variants, (4) 2..8 real threads with well-nested programs "
-        "run under random turn-based schedules and then to completion, (5) TSan smoke runs (support only); "
+        "run under random turn-based schedules and then to completion, (5) TSan smoke runs (support only), "
+        "(6) the real I/O loop interrupted by a signal (EINTR from epoll_wait) while another thread holds the lock; a failing "
+        "coap_new_context(); "
         "non-trivial = a sequence/schedule in which the mutex is taken at least once and a callback macro is executed, or a "
         "site / configuration line")
 TRUSTED_BASE = ["Lean 4.33 kernel; axioms allowed: propext, Classical.choice, Quot.sound (audited per theorem each run)",
                 "pthread mutex semantics (a mutex is held by at most one thread; lock blocks while it is held)",
                 "T1: extract/threadcfg.c (config probe), extract/apiscan.py (static scan: a heuristic C statement parser over "
-                "`gcc -E -fdirectives-only` output; it can miss an unusual control-flow shape, it cannot make a theorem check)",
+                "`gcc -E -fdirectives-only` output; it can miss an unusual control-flow shape, it cannot make a theorem check), "
+                "extract/lockbal.py (statement-tree parser + abstract interpretation of the lock depth relative to the function entry "
+                "over sets of (depth, branch facts); self-tested on 17 synthetic functions before every scan; calls are transparent, "
+                "so a function that hands the lock over to its caller would be reported, not followed)",
                 "harness/lockseq.c, harness/thrsmoke.c, generators, string comparison",
                 "M (CoapVerif/Model/Lock.lean) is a hand transcription of coap_threadsafe.c and of the macros of "
                 "coap_threadsafe_internal.h; checked against the compiled code on the sequences and schedules run"]
@@ -49,7 +65,8 @@ ASSUMPTIONS = ["A1 one call of coap_lock_lock_func / coap_lock_unlock_func / one
                "callback nesting depth < 2^32 - 1 (in_callback and lock_count are uint32_t)",
                "every thread runs a well-nested program: application code only calls COAP_API functions, library code only "
                "invokes application code through the four callback macros — established for the tree by the static scan (T1), "
-               "for the 71 wrappers and the listed callback types",
+               "for the 71 wrappers and the listed callback types; library code gives the lock up only in balanced release windows "
+               "(T1 internal_windows_balanced, for the configuration compiled here: epoll; the select() variant of the I/O loop is not scanned)",
                "data-race freedom of the compiled C outside the lock protocol (e.g. the unsynchronised read of "
                "global_lock.in_callback/pid at the top of coap_lock_lock_func) is TSan-observed only",
                "compiled Lean definitions agree with the kernel's reading of them"]
@@ -58,6 +75,9 @@ SPEC_DECISIONS = ["D13 whether the mutex is actually released during a *_release
                   "'API use on the same context': its *_lkd worker may run unlocked",
                   "D15 the callback types that must be wrapped are those the property enumerates (request, response, NACK, event, ping, pong); "
                   "unwrapped auxiliary callbacks are reported as an open finding, not silently accepted",
+                  "D17 inside the release window around the blocking wait the read of ctx->epfd (written only by coap_new_context before the "
+                  "context is visible and by coap_free_context) is not an access to shared library state; the failure action of a re-lock "
+                  "(dead code under A2) only has to leave the function: return, goto, assert(0) or abort()",
                   "D16 the logging sink (coap_log_handler_t) and the PRNG replacement (coap_rand_func_t) are not application callbacks in the property's sense"]
 RUN_KW = {"timeout": 900}
 
@@ -104,9 +124,10 @@ def compiled_in(p):
 
 def scan(bdir):
     src = os.path.join(C.VERIF, "extract", "apiscan.py")
+    newest = max(os.path.getmtime(src), os.path.getmtime(os.path.join(C.VERIF, "extract", "lockbal.py")))
     out = os.path.join(bdir, "x_apiscan.json")
     with C.Lock("extract-apiscan"):
-        if os.path.exists(out) and os.path.getmtime(out) >= os.path.getmtime(src):
+        if os.path.exists(out) and os.path.getmtime(out) >= newest:
             return json.load(open(out))
         r = C.sh([sys.executable, src, bdir, C.REPO], stderr=None)
         if r.returncode != 0:
@@ -158,6 +179,14 @@ def render(cfgs, sc):
         lstr(c["file"]), lstr(c["func"]), lstr(c["callee"]), c["k"], lb(c["listed"]), lb(c["wrapped"])) for c in sc["callbacks"]))
     L.append("]")
     L.append("")
+    L.append("/-- every function (of %d scanned) that releases / takes the global lock itself -/" % sc["functions_scanned"])
+    L.append("def lockWindows : List LockFn := [")
+    L.append(",\n".join('  { file := %s, name := %s, api := %s, entryHeld := %s, unlocks := %d, locks := %d, cbRelease := %d, windows := %d,\n'
+                        '    exitsBalanced := %s, loopsBalanced := %s, failLeaves := %s, ordered := %s, quiet := %s }' % (
+        lstr(f["file"]), lstr(f["name"]), lb(f["api"]), lb(f["entryHeld"]), f["unlocks"], f["locks"], f["cbRelease"], f["windows"],
+        lb(f["exitsBalanced"]), lb(f["loopsBalanced"]), lb(f["failLeaves"]), lb(f["ordered"]), lb(f["quiet"])) for f in sc["lockfns"]))
+    L.append("]")
+    L.append("")
     L.append("end Coap.Generated")
     return "\n".join(L) + "\n"
 
@@ -180,8 +209,14 @@ def extract(ctx):
         if p["advertised"] and not compiled_in(p):
             ctx.note("configuration %s: coap_threadsafe_is_supported()=1 but locking is not compiled in "
                      "(COAP_THREAD_SAFE defined as '%s', #if taken: %d)" % (n, p["define"], p["if"]))
+    for f in sc["lockfns"]:
+        for pr in f["problems"]:
+            ctx.note("lock balance: %s %s(): %s" % (f["file"], f["name"], pr))
     return ["Generated.buildCfgs (%d configurations)" % len(cfgs), "Generated.apiSites (%d COAP_API wrappers)" % len(sc["api"]),
-            "Generated.callbackSites (%d invocation sites, %d of listed types)" % (len(sc["callbacks"]), sum(c["listed"] for c in sc["callbacks"]))]
+            "Generated.callbackSites (%d invocation sites, %d of listed types)" % (len(sc["callbacks"]), sum(c["listed"] for c in sc["callbacks"])),
+            "Generated.lockWindows (%d functions with lock events of %d scanned: %d COAP_API, %d internal; %d release windows / callback-release sites in functions entered held)"
+            % (len(sc["lockfns"]), sc["functions_scanned"], sum(f["api"] for f in sc["lockfns"]), sum(not f["api"] for f in sc["lockfns"]),
+               sum(f["windows"] for f in sc["lockfns"] if f["entryHeld"]))]
 
 
 # ----------------------------------------------------------------------------------------------- harness
@@ -204,14 +239,16 @@ def harness(ctx):
     b, cfgs, sc = t1()
     b0, d0 = locking_build(0)
     b1, d1 = locking_build(1)
-    h0 = C.build_harness("lockseq", b0, extra=d0)
-    h1 = C.build_harness("lockseq", b1, extra=d1)
+    h0 = C.build_harness("lockseq", b0, extra=d0, wraps=["epoll_wait"])
+    h1 = C.build_harness("lockseq", b1, extra=d1, wraps=["epoll_wait"])
     if (b0, b1) != (b["cmake"][0], b["autotools"][0]) and not _state.get("noted"):
         _state["noted"] = 1
         ctx.note("lock harness built against forced-on configurations: rc=0 %s, rc=1 %s" % (os.path.basename(b0), os.path.basename(b1)))
     sites = os.path.join(b["cmake"][0], "x_sites.txt")
     txt = "".join("api %s %s %d %d %d\n" % (a["file"], a["name"], a["locks"], a["callsLkd"], a["unlocks"]) for a in sc["api"])
     txt += "".join("cb %s %s %s %d %d\n" % (c["file"], c["func"], c["callee"], c["k"], c["wrapped"]) for c in sc["callbacks"])
+    txt += "".join("win %s %s %d %d %d %d %d %d %d\n" % (f["file"], f["name"], f["entryHeld"], f["windows"], f["exitsBalanced"], f["loopsBalanced"],
+                                                          f["failLeaves"], f["ordered"], f["quiet"]) for f in sc["lockfns"])
     C.write_if_changed(sites, txt)
     cmd = [h0, h1, sites]
     for n, (bd, defs) in b.items():
@@ -223,7 +260,7 @@ def harness(ctx):
 
 
 # ----------------------------------------------------------------------------------------------- generators
-KINDS = ["K", "R", "X", "Y"]
+KINDS = ["K", "R", "X", "Y", "W"]      # W = release window of an internal function (coap_lock_unlock … coap_lock_lock)
 
 
 def gen_app(rng, depth, budget, deep):
@@ -265,6 +302,9 @@ def generate(ctx, escalate=False):
     out = ["lkcfg"]
     out += ["lkapi %s %s" % (a["file"], a["name"]) for a in sc["api"]]
     out += ["lkcb %s %s %s %d" % (c["file"], c["func"], c["callee"], c["k"]) for c in sc["callbacks"]]
+    out += ["lkwin %s %s" % (f["file"], f["name"]) for f in sc["lockfns"]]
+    out.append("lkctxfail 0")
+    out += ["lkeintr 0", "lkeintr 1"]
     nseq = 300000 if ctx.thorough() else 20000
     nsch = 60000 if ctx.thorough() else 5000
     if escalate:
@@ -313,6 +353,25 @@ def judge(ctx, c):
         if i != "wrapped=1":
             return ("spec", "application callback invoked without a coap_lock_callback* macro (re-entering the API from it self-deadlocks): " + i)
         return None if i == m else ("tie", "scan fact differs from Generated.callbackSites: %s vs %s" % (i, m))
+    if op == "lkwin":
+        f = dict(kv.split("=", 1) for kv in i.split() if "=" in kv)
+        badk = [k for k in ("exits", "loops", "fail", "order", "quiet") if f.get(k) != "1"]
+        if badk:
+            w = c["input"].split()
+            return ("spec", "lock balance of %s() in %s is broken on some path (%s): %s" % (
+                w[2] if len(w) > 2 else "?", w[1] if len(w) > 1 else "?", ",".join(badk), "; ".join(window_problems(w[1:3])) or i))
+        return None if i == m else ("tie", "scan fact differs from Generated.lockWindows: %s vs %s" % (i, m))
+    if op == "lkeintr":
+        if i != "ok":
+            return ("spec" if i.startswith("unserialised") else "tie",
+                    "a signal interrupted the I/O thread's wait inside coap_io_process() while another thread held the library "
+                    "lock in an event callback: the I/O thread must re-take the lock before it goes on; observed: " + i + static_hint())
+        return None if i == m else ("tie", "differs from M: %s vs %s" % (i, m))
+    if op == "lkctxfail":
+        if i != "ret=null held=0":
+            return ("spec", "coap_new_context() was made to fail (listen address cannot be bound): it must return NULL with the "
+                            "global lock released, observed: " + i + static_hint())
+        return None if i == m else ("tie", "differs from M: %s vs %s" % (i, m))
     if op == "lksmoke":
         return None if i == "ok" else ("spec", "TSan multi-thread smoke run (2..8 application threads + I/O thread, callbacks re-entering the API): " + i[:300])
     if op == "lkseq":
@@ -353,6 +412,28 @@ def judge(ctx, c):
     return ("tie", "unknown op")
 
 
+def window_problems(key):
+    """the scan's path descriptions for function (file, name)"""
+    try:
+        sc = t1()[2]
+    except Exception:
+        return []
+    for f in sc["lockfns"]:
+        if [f["file"], f["name"]] == list(key):
+            return f["problems"]
+    return []
+
+
+def static_hint():
+    """what the static lock-balance scan says about the tree (names the function and the path)"""
+    try:
+        sc = t1()[2]
+    except Exception:
+        return ""
+    pr = ["%s %s(): %s" % (f["file"], f["name"], p) for f in sc["lockfns"] for p in f["problems"]]
+    return ("; static scan: " + "; ".join(pr[:6])) if pr else ""
+
+
 def known(ctx, c):
     w = c["input"].split()
     if w[0] == "lksmoke" and (c["impl"] or "").startswith("tsan:"):
@@ -367,7 +448,7 @@ def known(ctx, c):
 
 def nontrivial(c):
     w = c["input"].split()
-    if w[0] in ("lkcfg", "lkapi", "lkcb"):
+    if w[0] in ("lkcfg", "lkapi", "lkcb", "lkwin", "lkctxfail", "lkeintr"):
         return True
     if w[0] in ("lkseq", "lksched"):
         return "L" in c["input"] and "+" in c["input"]
